@@ -165,6 +165,50 @@ def write_replay(prop_id, case, violation):
     return path
 
 
+def write_history_replay(prop_id, cases, violation):
+    """Replay file for a violation that needs process history: the cases are
+    run in order in ONE fresh interpreter."""
+    os.makedirs(REPLAY_DIR, exist_ok=True)
+    doc = {'property': prop_id, 'cases': cases,
+           'expect': {'sig': violation['sig'], 'what': violation['what']}}
+    name = '%s-hist-%s.json' % (prop_id, digest(doc))
+    path = os.path.join(REPLAY_DIR, name)
+    with open(path, 'w') as f:
+        json.dump(doc, f, indent=1, sort_keys=True, default=repr)
+    return path
+
+
+def reproduce_with_history(prop_id, prefix, case, v, max_tests=60):
+    """The violation did not reproduce from its case alone: it depends on what
+    the process executed before.  Replay the block prefix + case in a fresh
+    interpreter, then delta-debug the prefix.  -> replay path or None."""
+    sig = v['sig']
+    budget = [max_tests]
+
+    def test(pre):
+        if budget[0] <= 0:
+            return False
+        budget[0] -= 1
+        path = write_history_replay(prop_id, list(pre) + [case], v)
+        sigs, rc, err = replay_in_fresh_interpreter(prop_id, path)
+        ok = sig in sigs
+        if not ok:
+            try:
+                os.unlink(path)
+            except OSError:
+                pass
+        return ok
+
+    if not test(prefix):
+        return None
+    small = ddmin(prefix, test) if len(prefix) > 1 else prefix
+    path = write_history_replay(prop_id, list(small) + [case], v)
+    sigs, rc, err = replay_in_fresh_interpreter(prop_id, path)
+    if sig in sigs:
+        return path
+    return None
+
+
 def replay_in_fresh_interpreter(prop_id, path):
     """-> set of violation signatures reproduced by a fresh process."""
     env = dict(os.environ)
@@ -181,7 +225,7 @@ def replay_in_fresh_interpreter(prop_id, path):
 
 
 def run_check(prop, tier, verif_seed, workers=None, budget_s=None,
-                                       block_size=None, max_report=40):
+                                       block_size=None, max_report=6):
     """Drive a whole check; returns exit code."""
     t0 = time.time()
     workers = workers or min(16, os.cpu_count() or 1)
@@ -208,7 +252,7 @@ def run_check(prop, tier, verif_seed, workers=None, budget_s=None,
     blocks = list(chunked(cases, block_size))
     agg = Aggregate(prop)
     harness_errors = []
-    viol_cases = {}     # sig -> (case, violation)  first by case order
+    viol_cases = {}     # sig -> (case, violation, block idx, pos)
     by_block = {}
     for idx, st, payload in parallel_blocks(work, blocks, workers,
                               getattr(prop, 'BLOCK_TIMEOUT', 600), deadline):
@@ -223,27 +267,31 @@ def run_check(prop, tier, verif_seed, workers=None, budget_s=None,
             harness_errors.append('block %d: %s %s' % (idx, st,
                                                   (payload or '')[-1500:]))
             continue
-        for case, r in zip(blocks[idx], payload):
+        for pos, (case, r) in enumerate(zip(blocks[idx], payload)):
             if 'harness_error' in r:
                 harness_errors.append(r['harness_error'][-1500:])
                 continue
             agg.add(case, r)
             for v in r['violations']:
                 if v['sig'] not in viol_cases:
-                    viol_cases[v['sig']] = (case, v)
+                    viol_cases[v['sig']] = (case, v, idx, pos)
 
     exit_code = EXIT_OK
+    n_hist = 0
     new_violations = 0
     known_hit = []
     for sig in sorted(viol_cases):
-        case, v = viol_cases[sig]
+        case, v, bidx, bpos = viol_cases[sig]
         if sig in known:
             known_hit.append(sig)
             print('KNOWN-FINDING: property=%s %s' % (prop.ID,
                                                      known[sig]['what']))
             continue
         if new_violations >= max_report:
+            # enough replay files; further signatures are counted and listed
             new_violations += 1
+            print('VIOLATION-ALSO property=%s sig=%s (not minimised)' % (
+                                                            prop.ID, sig))
             continue
         # minimise, write, replay in a fresh interpreter
         try:
@@ -260,8 +308,23 @@ def run_check(prop, tier, verif_seed, workers=None, budget_s=None,
             print('  sig: %s' % sig)
             print('  what: %s' % v['what'][:600])
         else:
-            harness_errors.append('non-reproducible violation %s (replay rc=%r'
-                              ' sigs=%r)\n%s' % (sig, rc, sorted(sigs), err))
+            # history dependence: replay what this worker executed before it
+            hpath = None
+            if bpos > 0 and n_hist < 6:
+                n_hist += 1
+                hpath = reproduce_with_history(prop.ID,
+                                       blocks[bidx][:bpos], case, v)
+            if hpath is not None:
+                new_violations += 1
+                exit_code = EXIT_VIOLATION
+                print('VIOLATION property=%s replay=%s' % (prop.ID, hpath))
+                print('  sig: %s' % sig)
+                print('  what: %s' % v['what'][:600])
+                print('  note: depends on process history; the replay file '
+                      'lists the minimised sequence of cases')
+            else:
+                harness_errors.append('non-reproducible violation %s (replay '
+                    'rc=%r sigs=%r)\n%s' % (sig, rc, sorted(sigs), err))
     wall = time.time() - t0
     ev = agg.evidence(tier, verif_seed, wall, new_violations, known_hit,
                       skipped, harness_errors)
